@@ -104,6 +104,7 @@ fn read_generic<R: Rdr<Src = Source>>(input: &[u8], cap: usize, pol: PolKind, sc
             }
         }
     }
+    src_log.borrow_mut().bad_policy = shared.bad_answer.get();
     Reading { outs, pos, src: src_log, pol: pol_log, batches }
 }
 
